@@ -12,6 +12,8 @@ import Driver.C07
 import Driver.C05
 import Driver.C15
 import Driver.C16
+import Driver.C10
+import Driver.C11
 /-!
 `sfdriver`: executable models behind a line protocol.  One request per line
 (`<model> <op> <args…>`), one reply line per request.  Core-only (no Mathlib below this file).
@@ -33,6 +35,8 @@ def dispatch (ws : List String) : String :=
   | "c05" :: rest => Driver.C05.handle rest
   | "c15" :: rest => Driver.C15.handle rest
   | "c16" :: rest => Driver.C16.handle rest
+  | "c10" :: rest => Driver.C10.handle rest
+  | "c11" :: rest => Driver.C11.handle rest
   | _ => "bad-op"
 
 partial def loop (hin : IO.FS.Stream) (hout : IO.FS.Stream) : IO Unit := do
